@@ -717,6 +717,10 @@ def apply_event(S, ev, script=(), light=False, pre=None):
                 tr.ret = tuple(w.info())
             elif kind == 'redec':
                 _redecorate(S)
+            elif kind == 'redecs':
+                # a second decorator over the *same cache object* (cache=f.__cache__()): memory, with whatever it holds that
+                # is not archived yet, is shared; function object, bookkeeping and statistics are new
+                _redecorate(S, share=True)
             elif kind == 'reclone':
                 _reclone(S)
             else:
@@ -749,14 +753,16 @@ def apply_event(S, ev, script=(), light=False, pre=None):
     return tr
 
 
-def _redecorate(S):
+def _redecorate(S, share=False):
     """fresh function object + fresh decorator + fresh cache on the same archive"""
     import klepto.archives as ka
     old = S.wrapper.__cache__()
     kind = S.kind
     if S.cfg['backend'] in ('none', 'plaindict'):
         raise ValueError('redecorate needs an archive')
-    if S.direct:
+    if share:
+        cacheobj = old
+    elif S.direct:
         cacheobj = open_archive(kind, S.path, cached=False) if kind in PERSISTENT else old
     elif kind in PERSISTENT:
         cacheobj = open_archive(kind, S.path, cached=True)
@@ -1008,7 +1014,9 @@ def event_enabled(cfg, ev):
         return b in ('none', 'null', 'dict')
     if ev[0] in ('dump', 'load', 'dumpk', 'loadk', 'arch', 'dumpks', 'loadks', 'aclear') and not has_archive:
         return False
-    if ev[0] == 'redec' and (b in ('none', 'plaindict', 'null')):
+    if ev[0] in ('redec', 'redecs') and (b in ('none', 'plaindict', 'null')):
+        return False
+    if ev[0] == 'redecs' and (b.startswith('direct:') or b.split(':')[-1] in PERSISTENT):
         return False
     if ev[0] == 'reclone' and b.split(':')[-1] in ('sql', 'sqlmem'):
         return False
